@@ -29,6 +29,7 @@ class Path:
         self.rels = []       # (x poly, y poly, set of relations) facts from forked word comparisons
         self.trace = []      # human-readable branch decisions
         self.forced = {}     # (op, x, y) -> bool: comparisons the path has forked on
+        self.ranges = {}     # atom -> (lo, hi) refinements established by the path's facts
 
     def fork(self):
         p = Path()
@@ -37,10 +38,11 @@ class Path:
         p.rels = list(self.rels)
         p.trace = list(self.trace)
         p.forced = dict(self.forced)
+        p.ranges = dict(self.ranges)
         return p
 
     def same_as(self, o):
-        return self.mem == o.mem and self.rels == o.rels and self.forced == o.forced
+        return self.mem == o.mem and self.rels == o.rels and self.forced == o.forced and self.ranges == o.ranges
 
 
 class Frame:
@@ -94,6 +96,22 @@ class CppMachine:
         self.steps = 0
         self.max_states = 4000
 
+    def rng(self, v):
+        ov = getattr(self, 'cur_ranges', None)
+        if not ov:
+            return self.world.rng(v)
+        saved = {}
+        for a, (lo, hi) in ov.items():
+            at = self.world.atoms.get(a)
+            if at is not None:
+                saved[a] = (at['lo'], at['hi'])
+                at['lo'], at['hi'] = max(at['lo'], lo), min(at['hi'], hi)
+        try:
+            return self.world.rng(v)
+        finally:
+            for a, (lo, hi) in saved.items():
+                self.world.atoms[a]['lo'], self.world.atoms[a]['hi'] = lo, hi
+
     # ---------------- memory ----------------
     def rd_word(self, st, obj, off):
         key = (obj, off)
@@ -106,9 +124,15 @@ class CppMachine:
             v = self.world.input(name)
             self.world.atoms[name]['hi'] = self.W - 1
             return v
+        if isinstance(obj, tuple) and obj and obj[0] == 'G':
+            return self.global_word(obj[1], off, self.wb)
         raise Unsupported('read of uninitialised memory %s+%d' % (obj, off))
 
     def rd(self, st, obj, off, size):
+        if obj in getattr(self, 'scalars', ()):
+            if (obj, off) not in st.p.mem:
+                raise Unsupported('read of the unset scalar %s' % obj)
+            return st.p.mem[(obj, off)]
         if size == self.wb:
             return self.rd_word(st, obj, off)
         if size == 2 * self.wb:
@@ -116,6 +140,9 @@ class CppMachine:
         raise Unsupported('memory read of %d bytes' % size)
 
     def wr(self, st, obj, off, size, val):
+        if obj in getattr(self, 'scalars', ()):
+            st.p.mem[(obj, off)] = self.trunc(val, 8 * size) if size else val
+            return
         if size == self.wb:
             lo, hi = self.split(val, self.wordbits)
             st.p.mem[(obj, off)] = lo
@@ -131,7 +158,7 @@ class CppMachine:
     # ---------------- value helpers ----------------
     def split(self, v, bits):
         """(lo, hi) with v == lo + 2^bits * hi, 0 <= lo < 2^bits (v must be known non-negative)"""
-        lo_, hi_ = self.world.rng(v)
+        lo_, hi_ = self.rng(v)
         if lo_ < 0:
             raise Unsupported('split of a possibly negative value')
         if hi_ < (1 << bits):
@@ -148,7 +175,7 @@ class CppMachine:
             Lc = {m_: c for m_, c in v.t.items() if c % (1 << w) != 0}
             if Hc and Lc:
                 L = ZPoly(Lc)
-                l0, l1 = self.world.rng(L)
+                l0, l1 = self.rng(L)
                 if l0 >= 0 and l1 < (1 << w):
                     H = ZPoly({m_: c >> w for m_, c in Hc.items()})
                     lo2, hi2 = self.split(H, bits - w)
@@ -168,7 +195,7 @@ class CppMachine:
 
     def wrap(self, v, bits, node=None):
         """value of an unsigned expression of width `bits` whose exact integer value is v"""
-        lo_, hi_ = self.world.rng(v)
+        lo_, hi_ = self.rng(v)
         m = 1 << bits
         if lo_ >= 0 and hi_ < m:
             return v
@@ -246,7 +273,7 @@ class CppMachine:
         n = len(ats)
         for mask in range(1 << n):
             asg = {a: ZPoly.const((mask >> i) & 1) for i, a in enumerate(ats)}
-            lo, hi = self.world.rng(D.subs(asg))
+            lo, hi = self.rng(D.subs(asg))
             t = truth(lo, hi)
             if t is None:
                 return None
@@ -323,6 +350,22 @@ class CppMachine:
             raise Unsupported('index / bound is not a compile-time value at %s' % loc_str(e))
         return v.const_value()
 
+    def divmod_const(self, a, d, e=None):
+        """quotient and remainder of a non-negative value by a positive constant:  a == d*q + r,  0 <= r < d  (one pair of atoms per
+        distinct dividend, so that `a / d` and `a % d` written separately agree)"""
+        lo, hi = self.rng(a)
+        if lo < 0:
+            raise Unsupported('division of a possibly negative value at %s' % loc_str(e or {}))
+        if hi < d:
+            return ZERO, a
+        cache = self.__dict__.setdefault('_divcache', {})
+        key = (a, d)
+        if key not in cache:
+            qn = self.world.new('q', 'quot', lo // d, hi // d, weight=d)
+            rn = self.world.new('r', 'val', 0, min(d - 1, hi), defn=a - ZPoly.var(qn) * d)
+            cache[key] = (ZPoly.var(qn), ZPoly.var(rn))
+        return cache[key]
+
     def eval(self, st, e, nowrap=False):
         """exact value of an integer expression as a polynomial (wrapped to its type unless nowrap)"""
         k = e.get('k')
@@ -369,7 +412,7 @@ class CppMachine:
             if t.get('k') == 'bool':
                 return self.truthy(st, v)
             if t.get('k') in ('int', 'enum') and bits and not signed:
-                lo, hi = self.world.rng(v)
+                lo, hi = self.rng(v)
                 if lo < 0:
                     return self.wrap(v, bits, e)
                 return self.trunc(v, bits)
@@ -385,7 +428,7 @@ class CppMachine:
                 if signed or nowrap or not bits:
                     return v
                 if op == '*':
-                    lo, hi = self.world.rng(v)
+                    lo, hi = self.rng(v)
                     if hi >= (1 << bits):
                         return self.trunc_product(a, b, bits)
                     return v
@@ -410,9 +453,9 @@ class CppMachine:
             if op == '|':
                 a, b = self.eval(st, e['lhs']), self.eval(st, e['rhs'])
                 for (x, y) in ((a, b), (b, a)):
-                    hi = self.world.rng(y)[1]
+                    hi = self.rng(y)[1]
                     sh = hi.bit_length()
-                    if self.world.rng(y)[0] >= 0 and (x.is_zero() or x.coeff_gcd_divisible(1 << sh)):
+                    if self.rng(y)[0] >= 0 and (x.is_zero() or x.coeff_gcd_divisible(1 << sh)):
                         return x + y
                 raise Unsupported('bitwise or of overlapping values at %s' % loc_str(e))
             if op == '&':
@@ -429,6 +472,9 @@ class CppMachine:
                 a, b = self.eval(st, e['lhs']), self.eval(st, e['rhs'])
                 if a.is_const() and b.is_const() and b.const_value():
                     return ZPoly.const(a.const_value() // b.const_value() if op == '/' else a.const_value() % b.const_value())
+                if b.is_const() and b.const_value() > 0 and not signed:
+                    q, r = self.divmod_const(a, b.const_value(), e)
+                    return q if op == '/' else r
             raise Unsupported('operator %s at %s' % (op, loc_str(e)))
         if k == 'cond':
             c = self.eval(st, e['c'])
@@ -471,6 +517,13 @@ class CppMachine:
     def global_word(self, gid, off, size):
         from . import consts
         g = self.prog.globals.get(gid)
+        hops = 0
+        while g is not None and isinstance(g.get('value'), dict) and 'lvalue' in g['value'] and hops < 8:
+            # a constexpr reference (Fp::p_value) names another constant
+            off += g['value'].get('offset') or 0
+            gid = g['value']['lvalue']
+            g = self.prog.globals.get(gid)
+            hops += 1
         if g is None or 'value' not in g:
             raise Unsupported('constant %s has no compile-time value' % gid)
         v = consts.as_int(consts.decode(g['value']))
@@ -484,7 +537,7 @@ class CppMachine:
         v = self.subst(st, v)
         if v.is_const():
             return ZPoly.const(1 if v.const_value() else 0)
-        lo, hi = self.world.rng(v)
+        lo, hi = self.rng(v)
         if (lo, hi) == (0, 1) or (lo >= 0 and hi <= 1):
             return v
         r = self.decide_cmp(st, '!=', v, ZERO)
@@ -499,7 +552,7 @@ class CppMachine:
         v = self.subst(st, v)
         if v.is_const():
             return ZPoly.const(1 if v.const_value() else 0)
-        lo, hi = self.world.rng(v)
+        lo, hi = self.rng(v)
         if lo >= 0 and hi <= 1:
             return v
         return None
@@ -619,6 +672,7 @@ class CppMachine:
         return self.exec1(st, s)
 
     def exec1(self, st, s):
+        self.cur_ranges = st.p.ranges
         self.steps += 1
         if self.steps > 2000000:
             raise Unsupported('too many steps')
@@ -715,7 +769,17 @@ class CppMachine:
             obj = 'loc%d' % self.nlocal
             st.fr.vars[v['id']] = ('obj', obj, 0)
             if init is not None and init.get('k') not in ('defaultinit',):
-                raise Unsupported('initialiser of record local at %s' % loc_str(v))
+                cells = {}
+                self.init_cells(st, init, 0, cells)
+                size = t.get('size') or 0
+                for woff in range(0, size, self.wb):
+                    acc = ZPoly()
+                    for (off, (sz, val)) in cells.items():
+                        if woff <= off < woff + self.wb:
+                            if off + sz > woff + self.wb:
+                                raise Unsupported('initialiser cell across words at %s' % loc_str(v))
+                            acc = acc + val * (1 << (8 * (off - woff)))
+                    st.p.mem[(obj, woff)] = acc
             return
         if k == 'ref':
             o = self.lvalue(st, init)
@@ -730,6 +794,36 @@ class CppMachine:
             if isinstance(val, tuple):
                 raise Unsupported('boolean local from an undecided comparison at %s' % loc_str(v))
             st.fr.vars[v['id']] = val
+
+    def init_cells(self, st, init, off, cells):
+        """byte-addressed scalar cells of a brace initialiser (the rest of the object is zero)"""
+        t = init.get('t') or {}
+        if init.get('k') == 'initlist':
+            if t.get('k') == 'array':
+                esz = (t.get('elem') or {}).get('size') or 0
+                for i, x in enumerate(init.get('inits', [])):
+                    self.init_cells(st, x, off + i * esz, cells)
+                return
+            if t.get('k') == 'union':
+                for x in init.get('inits', [])[:1]:
+                    self.init_cells(st, x, off, cells)
+                return
+            if t.get('k') == 'record':
+                rec = self.prog.records.get(t.get('rec')) or {}
+                fields = rec.get('fields') or []
+                for x, f in zip(init.get('inits', []), fields):
+                    self.init_cells(st, x, off + f['off'], cells)
+                if len(init.get('inits', [])) > len(fields):
+                    raise Unsupported('initialiser with bases at %s' % loc_str(init))
+                return
+            raise Unsupported('initialiser list of %s at %s' % (t.get('k'), loc_str(init)))
+        if t.get('k') in ('int', 'enum', 'bool'):
+            v = self.eval(st, init)
+            if isinstance(v, tuple):
+                raise Unsupported('initialiser from an undecided comparison at %s' % loc_str(init))
+            cells[off] = (t.get('size') or 0, v)
+            return
+        raise Unsupported('initialiser of %s at %s' % (t.get('k'), loc_str(init)))
 
     def expr_stmt(self, st, e):
         e = strip(e)
@@ -1329,3 +1423,315 @@ def rule_wordalg_cpp(ctx, cfg, prog, rule='R-WORDALG/c++'):
             ctx.ob(rule, ok, 'wordalg-c++|%s|%s' % (short, pname), loc_str(f), '%s (%s): %s' % (f['qn'], pname, ' ;; '.join(x[:700] for x in msgs[:2])), cfg=cfg,
                    sample=dict(config=cfg, routine=short, aliasing=pname, states=nst, kind=kind))
     return n
+
+
+# ---------------------------------------------------------------------------------------------- PowersOfX::decompose (C06, C07)
+_prev_call = CppMachine.call
+
+
+def _big_words(self, st, obj, off, n):
+    return [self.rd_word(st, obj, off + i * self.wb) for i in range(n)]
+
+
+def _write_big(self, st, obj, off, n, total, defn_of_value):
+    """store an n-word value whose exact integer value is the polynomial `defn_of_value` (range known): one atom per word that can be
+    non-zero, tied to the value by their sum"""
+    lo, hi = self.rng(defn_of_value)
+    if lo < 0:
+        raise Unsupported('negative big value')
+    words = []
+    nz = 0
+    while (hi >> (self.wordbits * nz)) > 0:
+        nz += 1
+    nz = min(nz, n)
+    acc = ZPoly()
+    for i in range(n):
+        if i >= nz:
+            words.append(ZERO)
+            continue
+        whi = min(self.W - 1, hi >> (self.wordbits * i))
+        if i == nz - 1:
+            # the top word is determined by the others
+            vn = self.world.new('v', 'val', 0, whi, defn=None)
+            words.append(ZPoly.var(vn))
+        else:
+            vn = self.world.new('v', 'val', 0, self.W - 1, defn=None)
+            words.append(ZPoly.var(vn))
+    # one defining identity for the vector: word 0 carries it (word0 = value - sum of the higher words)
+    if nz:
+        higher = sum((w * (self.W ** i) for i, w in enumerate(words) if i >= 1), ZPoly())
+        a0 = words[0].single_atom()
+        self.world.atoms[a0]['defn'] = defn_of_value - higher
+    for i, w in enumerate(words):
+        st.p.mem[(obj, off + i * self.wb)] = w
+    return words
+
+
+def _call_with_big_summaries(self, st, e):
+    callee = self.prog.callee(e, st.fr.fn)
+    qn = strip_tmpl((callee or {}).get('qn', ''))
+    args = e.get('args', [])
+    th = e.get('this')
+    if qn == 'embedded_pairing::core::BigInt::subtract' and th is not None and getattr(self, 'big_summaries', False):
+        # a difference of two values that the path knows to be ordered does not borrow: summarise it with the tight range
+        nbytes = (((callee.get('params') or [{}])[0].get('t') or {}).get('pointee') or {}).get('size') or 0
+        n = nbytes // self.wb if nbytes else 0
+        if n:
+            objs = []
+            for a in args[:2]:
+                x = a
+                while isinstance(x, dict) and x.get('k') == 'cast' and x.get('ck') in ('NoOp', 'DerivedToBase', 'UncheckedDerivedToBase'):
+                    x = x['e']
+                objs.append(self.lvalue(st, x))
+            A = sum((w * (self.W ** i) for i, w in enumerate(_big_words(self, st, objs[0][0], objs[0][1], n))), ZPoly())
+            B = sum((w * (self.W ** i) for i, w in enumerate(_big_words(self, st, objs[1][0], objs[1][1], n))), ZPoly())
+            for r in st.p.rels:
+                if len(r) >= 4 and ((r[0] == A and r[1] == B and r[2] <= {'eq', 'gt'}) or (r[0] == B and r[1] == A and r[2] <= {'eq', 'lt'})):
+                    dst = self.pointer(st, th) if e.get('arrow') else self.lvalue(st, th)
+                    # range of A - B given A >= B: [0, max(A) - min(B)]
+                    (alo, ahi), (blo, bhi) = self.rng(A), self.rng(B)
+                    dn = self.world.new('d', 'val', 0, ahi - blo, defn=A - B)
+                    _write_big(self, st, dst[0], dst[1], n, None, ZPoly.var(dn))
+                    st.fr.ret_from_call = ZERO
+                    return [st]
+    return _prev_call(self, st, e)
+
+
+CppMachine.call = _call_with_big_summaries
+
+_prev_compare = _call_with_compare_summary
+
+
+def _refine_on_compare(self, outs):
+    """`A < B` with B a constant: the top word of A cannot exceed the top word of B (and symmetric refinements)"""
+    for s2 in outs:
+        r = s2.p.rels[-1]
+        A, B, rel = r[0], r[1], r[2]
+        for (X, Y, rl) in ((A, B, rel), (B, A, frozenset({{'lt': 'gt', 'gt': 'lt', 'eq': 'eq'}[t] for t in rel}))):
+            if Y.is_const() and rl <= {'lt', 'eq'}:
+                c = Y.const_value()
+                # X <= c: bound every word atom that is a plain input word by what c allows for it alone (top word), conservatively
+                tops = sorted(((co, m_) for m_, co in X.t.items() if len(m_) == 1 and m_[0][1] == 1), reverse=True)
+                if tops:
+                    co, m_ = tops[0]
+                    a = m_[0][0]
+                    bound = c // co
+                    lo, hi = s2.p.ranges.get(a, (0, self.W - 1))
+                    s2.p.ranges[a] = (lo, min(hi, bound))
+    return outs
+
+
+def _writes_only_first_param(fn):
+    """every call in the body is a member call on a local object or on the first (reference) parameter, every other parameter is
+    a value or a reference to const, and nothing else is assigned: the routine can only change its first argument"""
+    ps = fn.get('params') or []
+    if not ps or (ps[0]['t'].get('k') != 'ref'):
+        return False
+    for p in ps[1:]:
+        pt = p['t']
+        if pt.get('k') in ('ref', 'ptr') and not (pt.get('pointee') or {}).get('const'):
+            return False
+    local_ids = set()
+    for n in walk(fn['body']):
+        if n.get('k') == 'decl':
+            for v in n['vars']:
+                if (v.get('t') or {}).get('k') in ('ref', 'ptr'):
+                    return False
+                local_ids.add(v['id'])
+    for n in walk(fn['body']):
+        if n.get('k') == 'call':
+            th = n.get('this')
+            if th is None or n.get('arrow'):
+                return False
+            r = strip(th)
+            while r.get('k') == 'cast':
+                r = strip(r['e'])
+            if r.get('k') != 'ref' or not (r.get('id') in local_ids or r.get('id') == ps[0]['id']):
+                return False
+        if n.get('k') == 'assign' or (n.get('k') == 'un' and n.get('op') in ('++', '--')):
+            l = strip(n.get('lhs') or n.get('e'))
+            if l.get('k') != 'ref' or l.get('id') not in local_ids:
+                return False
+    return True
+
+
+def _compare_with_refinement(self, st, e):
+    callee = self.prog.callee(e, st.fr.fn)
+    hv = getattr(self, 'havoc_calls', None)
+    if hv and callee is not None and 'body' in callee and strip_tmpl(callee['qn']) in hv:
+        if not _writes_only_first_param(callee):
+            raise Unsupported('%s may write more than its first argument' % callee['qn'])
+        x = e['args'][0]
+        while isinstance(x, dict) and x.get('k') == 'cast' and x.get('ck') in ('NoOp', 'DerivedToBase', 'UncheckedDerivedToBase'):
+            x = x['e']
+        o = self.lvalue(st, x)
+        nbytes = ((callee['params'][0]['t'].get('pointee') or {}).get('size')) or 0
+        self.nhavoc = getattr(self, 'nhavoc', 0) + 1
+        nm = 'H%d' % self.nhavoc
+        self.inputs[nm] = nbytes // self.wb
+        for i in range(nbytes // self.wb):
+            v = self.world.input('%s_%d' % (nm, i))
+            self.world.atoms['%s_%d' % (nm, i)]['hi'] = self.W - 1
+            st.p.mem[(o[0], o[1] + i * self.wb)] = v
+        st.p.trace.append('%s: any value' % callee['qn'].split('::')[-1][:40])
+        st.fr.ret_from_call = None
+        return [st]
+    if _is_bigint_compare(callee) and not getattr(self, 'inline_compare', False):
+        outs = _prev_compare(self, st, e)
+        return _refine_on_compare(self, outs)
+    return _call_with_big_summaries(self, st, e)
+
+
+CppMachine.call = _compare_with_refinement
+
+
+def rule_decompose(ctx, cfg, prog, rule='R-WORDALG/c++'):
+    """PowersOfX::decompose(y): c0 + c1|x| + c2|x|^2 + c3|x|^3 == y (mod r) as an identity in y, on every path, with every digit a
+    64-bit word.  divide_std_dword is summarised by S == d*Q + R, 0 <= R < d (and verified against that summary on its own)."""
+    from . import buildmodel as bm, bls
+    wordbits = bm.configs()[cfg]['words']
+    if wordbits != 64:
+        return 0
+    n_ob = 0
+    X = abs(bls.X)
+    R = bls.R_ORDER
+    # (a) the division primitive against its summary
+    for f in sorted(prog.functions.values(), key=lambda f: f['qn']):
+        if 'body' not in f or strip_tmpl(f['qn']) != 'embedded_pairing::core::BigInt::divide_std_dword':
+            continue
+        import re
+        mm = re.match(r'^embedded_pairing::core::BigInt<(\d+)>::divide_std_dword<(\d+)', f['qn'])
+        if not mm:
+            continue
+        bits, d = int(mm.group(1)), int(mm.group(2))
+        n = bits // 64
+        if bits % 128:
+            continue
+        msgs = []
+        for pat in ({}, {0: 1}):
+            try:
+                m, finals, names = _final_states(prog, f, 64, n, [('obj', n)], pat)
+            except Unsupported as e:
+                raise bm.AnalysisBroken('R-WORDALG/c++ cannot model %s: %s' % (f['qn'], e))
+            for st in finals:
+                pr_ = CppResult(m, st, names[0], n)
+                if any(v is None for v in pr_.res) or st.fr.ret is None:
+                    msgs.append('quotient word or remainder not produced')
+                    continue
+                S = bigw(m, words_of(m, names[1], n))
+                D = pr_.x(pr_.big(pr_.res)) * d + pr_.x(st.fr.ret) - S
+                lo, hi = m.world.rng(st.fr.ret)
+                if not D.is_zero():
+                    msgs.append('quotient * divisor + remainder differs from the dividend by %r' % D)
+                elif not (lo >= 0 and hi < d):
+                    msgs.append('the remainder is not known to be below the divisor')
+            n_ob += 1
+            ctx.ob(rule, not msgs, 'wordalg-c++|%s|%s' % (f['qn'].replace('embedded_pairing::core::', '')[:60], 'distinct' if not pat else 'in place'), loc_str(f),
+                   '%s: %s' % (f['qn'], ' ;; '.join(msgs[:2])), cfg=cfg,
+                   sample=dict(config=cfg, routine=f['qn'].replace('embedded_pairing::core::', '')[:60], kind='division by a constant word'))
+    # (b) decompose
+    fs = prog.fn_by_qn('embedded_pairing::bls12_381::PowersOfX::decompose')
+    if len(fs) != 1:
+        raise bm.AnalysisBroken('PowersOfX::decompose not found')
+    f = fs[0]
+    rec = prog.records.get('embedded_pairing::bls12_381::PowersOfX')
+    cf = [x for x in rec['fields'] if x['name'] == 'c'][0]
+    esz = cf['t']['elem']['size']
+    try:
+        inputs = {'A0': 4 * esz // 8, 'A1': 4}
+        m = CppMachine(prog, 64, inputs)
+        m.big_summaries = True
+        st = St(Path(), [Frame(f, ('A0', 0))])
+        st.fr.vars[f['params'][0]['id']] = ('obj', 'A1', 0)
+        finals = m.exec(st, f['body'])
+    except Unsupported as e:
+        raise bm.AnalysisBroken('R-WORDALG/c++ cannot model PowersOfX::decompose: %s' % e)
+    Y = bigw(m, words_of(m, 'A1', 4))
+    msgs = []
+    for st in finals:
+        sub = {a: ZPoly.const(v) for a, v in st.p.bits.items()}
+        cs = []
+        for i in range(4):
+            w = st.p.mem.get(('A0', cf['off'] + i * esz))
+            cs.append(w)
+        path = '[' + '; '.join(st.p.trace[-6:]) + ']'
+        if any(c is None for c in cs):
+            msgs.append('digit %d is not written on the path %s' % ([i for i, c in enumerate(cs) if c is None][0], path))
+            continue
+        val = sum((c * (X ** i) for i, c in enumerate(cs)), ZPoly())
+        D = (m.world.expand(val) - Y).subs(sub)
+        if not all(co % R == 0 for co in D.t.values()):
+            bad = ZPoly({m_: co for m_, co in D.t.items() if co % R})
+            msgs.append('on the path %s  c0 + c1|x| + c2|x|^2 + c3|x|^3 - y  is not a multiple of r: residual %r' % (path, bad))
+    n_ob += 1
+    ctx.ob(rule, not msgs, 'wordalg-c++|PowersOfX::decompose', loc_str(f), 'PowersOfX::decompose: %s' % ' ;; '.join(x[:600] for x in msgs[:2]), cfg=cfg,
+           sample=dict(config=cfg, routine='PowersOfX::decompose', paths=len(finals), specification='sum c_i |x|^i == y (mod r), identically in y'))
+    return n_ob
+
+
+def rule_glv_decompose(ctx, cfg, prog, rule='R-WORDALG/c++'):
+    """decompose_lambda(c0, c0_neg, c1, c1_neg, k):  (+-c0) + lambda * (+-c1) == k (mod r) identically in k on every path, where lambda
+    is the eigenvalue fixed by the lattice constant (lambda * v1_2 == 1 mod r; R-CONST ties it to beta).  The identity holds for ANY
+    rounded_b2 (the lattice vectors are in the kernel), so floordiv_by_fr_p_value is replaced by an arbitrary 128-bit value after the
+    check that it can only write its result argument; what is decided is that the recombination is exact: no product, add-back or
+    ordered subtraction wraps, and the signs match the branch taken."""
+    from . import buildmodel as bm, bls, consts
+    wordbits = bm.configs()[cfg]['words']
+    NS_ = 'embedded_pairing::bls12_381::'
+    fs = prog.fn_by_qn(NS_ + 'decompose_lambda')
+    if len(fs) != 1:
+        raise bm.AnalysisBroken('decompose_lambda not found')
+    f = fs[0]
+    ps = f['params']
+    if len(ps) != 5:
+        raise bm.AnalysisBroken('decompose_lambda: unexpected signature')
+    R = bls.R_ORDER
+    g = prog.globals.get(NS_ + 'g1_v1_2')
+    if g is None or 'value' not in g:
+        raise bm.AnalysisBroken('g1_v1_2 not found')
+    lam = bls.inv(consts.as_int(consts.decode(g['value'])), R)
+    nw = 256 // wordbits
+    try:
+        inputs = {'C0': nw, 'C1': nw, 'K': nw}
+        m = CppMachine(prog, wordbits, inputs)
+        m.big_summaries = True
+        m.scalars = {'N0', 'N1'}
+        m.havoc_calls = {NS_ + 'floordiv_by_fr_p_value'}
+        st = St(Path(), [Frame(f, None)])
+        for p, o in zip(ps, ('C0', 'N0', 'C1', 'N1', 'K')):
+            st.fr.vars[p['id']] = ('obj', o, 0)
+        # the outputs start undefined: reading them before writing is an error, so do not treat them as inputs
+        del m.inputs['C0'], m.inputs['C1']
+        finals = m.exec(st, f['body'])
+    except Unsupported as e:
+        raise bm.AnalysisBroken('R-WORDALG/c++ cannot model decompose_lambda: %s' % e)
+    K = bigw(m, words_of(m, 'K', nw))
+    msgs = []
+    for st in finals:
+        sub = {a: ZPoly.const(v) for a, v in st.p.bits.items()}
+        path = '[' + '; '.join(st.p.trace[-6:]) + ']'
+        vals = []
+        bad = False
+        for (o, n_) in (('C0', 'N0'), ('C1', 'N1')):
+            ws = [st.p.mem.get((o, i * m.wb)) for i in range(nw)]
+            sg = st.p.mem.get((n_, 0))
+            if any(w is None for w in ws) or sg is None:
+                msgs.append('on the path %s an output (%s or its sign) is not written' % (path, o))
+                bad = True
+                break
+            sg = sg.subs(sub)
+            if not sg.is_const() or sg.const_value() not in (0, 1):
+                msgs.append('on the path %s the sign of %s is not a constant of the path' % (path, o))
+                bad = True
+                break
+            v = bigw(m, ws)
+            vals.append(-v if sg.const_value() else v)
+        if bad:
+            continue
+        D = (m.world.expand(vals[0] + vals[1] * lam) - K).subs(sub)
+        if not all(co % R == 0 for co in D.t.values()):
+            res = ZPoly({m_: co % R for m_, co in D.t.items() if co % R})
+            msgs.append('on the path %s  (+-c0) + lambda*(+-c1) - k  is not a multiple of r: residual (mod r) %r' % (path, res))
+    ctx.ob(rule, not msgs and bool(finals), 'wordalg-c++|decompose_lambda', loc_str(f), 'decompose_lambda: %s' % ' ;; '.join(x[:700] for x in msgs[:2]), cfg=cfg,
+           sample=dict(config=cfg, routine='decompose_lambda', paths=len(finals), specification='(+-c0) + lambda (+-c1) == k (mod r), identically in k and in the rounded quotient'))
+    return 1
